@@ -228,6 +228,15 @@ def get_plan(pid):
                         trusted_base=["A-ENGINE", "A-STDLIB: Python `s in t` on str is substring containment, str ordering is code-point lexicographic (= SMT-LIB str.<)", "A-TERM"])
     if pid in ("C02", "C12"):
         return MarkerPlan(pid)
+    if pid == "C14":
+        jobs = [(f"C14.spec.{k}", "spec_c14", {"chunk": (k, 5)}) for k in range(5)] + [("C14.lemmas", "spec_lemmas", {}), ("C14.markers", "marker_c14", {})]
+        return JobsPlan("C14", jobs, rtc=["spec_algebra", "marker_algebra"], level="other",
+                        technique="laws as corollaries of the operator contracts: specifiers - both sides canonical and pointwise the same versions (from the C01/C05 law contracts), object equality by the "
+                                  "canonical-uniqueness lemma (head/tail/base steps machine-checked), complements via witness points; markers - propositional corollaries of the C02 operator law; z3",
+                        trusted_base=["A-ENGINE", "the C01/C05 law contracts (proved by those checks)", "list induction principle combining the canonical-uniqueness step lemmas",
+                                      "the C02 operator law (combinator layer proved, atom layer bounded)", "A-ORD with density", "A-TERM"],
+                        explanation="proof part: 13 laws + 2 complement laws on specifiers of arbitrary class and the uniqueness/non-emptiness lemmas; 10 laws on markers as corollaries of C02; "
+                                    "bounded part: law sweep on real objects (equal objects for specifiers, equivalence on the environment grid for markers)")
     if pid == "C08":
         return JobsPlan("C08", [(f"tags_python.{k}", "tags_python", {"chunk": (k, 16)}) for k in range(16)], rtc=["tags_python"],
                         replay=lambda name, rec: ({"suite": "tags_python", "arg": rec["model"]} if (rec.get("model") or {}).get("python_tag") else None),
